@@ -1684,6 +1684,7 @@ func runC16(c *Ctx) {
 	c.ruleDerive()
 	c.ruleOptionsForwarded()
 	c.ruleTaggedRaw("C16.raw")
+	c.ruleCopyLengths("C16.mac")
 }
 
 // derivesFromOpts: the variadic argument is the opts slice (make + appends of
